@@ -286,6 +286,13 @@ def cmpInt (op : BinOp) (a b : Int) : Option Bool :=
   | .ge => some (decide (a ≥ b))
   | _ => none
 
+/-- strict lexicographic order on byte strings -/
+def bytesLt : List UInt8 → List UInt8 → Bool
+  | [], [] => false
+  | [], _ :: _ => true
+  | _ :: _, [] => false
+  | a :: as, b :: bs => if a < b then true else if b < a then false else bytesLt as bs
+
 /-- strict binary operators (both operands already evaluated, left first) -/
 def binop (fuel : Nat) (op : BinOp) (a b : Val) (s : St) : Res Val :=
   match op, a, b with
@@ -299,6 +306,11 @@ def binop (fuel : Nat) (op : BinOp) (a b : Val) (s : St) : Res Val :=
   | .le, .int x, .int y => .ok (.bool (decide (x ≤ y))) s
   | .gt, .int x, .int y => .ok (.bool (decide (x > y))) s
   | .ge, .int x, .int y => .ok (.bool (decide (x ≥ y))) s
+  -- strings: lexicographic by bytes, a proper prefix is smaller (operators.md: `"apple" < "banana"`)
+  | .lt, .str x, .str y => .ok (.bool (bytesLt x.toUTF8.toList y.toUTF8.toList)) s
+  | .le, .str x, .str y => .ok (.bool (!bytesLt y.toUTF8.toList x.toUTF8.toList)) s
+  | .gt, .str x, .str y => .ok (.bool (bytesLt y.toUTF8.toList x.toUTF8.toList)) s
+  | .ge, .str x, .str y => .ok (.bool (!bytesLt x.toUTF8.toList y.toUTF8.toList)) s
   | .eq, x, y => match valEq fuel x y with
     | some r => .ok (.bool r) s
     | none => .stuck "eq"
